@@ -380,17 +380,18 @@ let run_case (x : sx) : unit =
             let sws = List.map (fun s -> int_of_string (atom s)) (lst sws) in
             let reads_acc = ref [] in
             List.iter (fun sw ->
-                add " (res "; add (string_of_int sw); add " ";
-                if sw <> 0 then add "?"
+                add " (res "; add (string_of_int sw);
+                if sw <> 0 then add " ?"
                 else begin
                   let per_doc = ref [] in
+                  if docs <> [] then add " ";
                   List.iter (fun kv ->
                       let seen = Hashtbl.create 8 in
                       let d : docq = fun k -> Hashtbl.replace seen (List.map int_of_n k) k; Ok (obj_find kv k) in
                       let r3 = solve_rule3 o r.r_det d in
                       Buffer.add_char b (res_char r3);
                       let keys = Hashtbl.fold (fun _ k acc -> k :: acc) seen [] in
-                      per_doc := List.sort compare_str keys :: !per_doc) docs;
+                      per_doc := (if res_char r3 = 'p' then None else Some (List.sort compare_str keys)) :: !per_doc) docs;
                   reads_acc := (sw, List.rev !per_doc) :: !reads_acc
                 end;
                 add ")") sws;
@@ -398,7 +399,10 @@ let run_case (x : sx) : unit =
               List.iter (fun (sw, per_doc) ->
                   add " (reads "; add (string_of_int sw);
                   List.iter (fun keys ->
-                      add " ("; List.iteri (fun i k -> if i > 0 then add " "; p_str k) keys; add ")") per_doc;
+                      match keys with
+                      | None -> add " (panic)"
+                      | Some keys ->
+                          add " ("; List.iteri (fun i k -> if i > 0 then add " "; p_str k) keys; add ")") per_doc;
                   add ")") (List.rev !reads_acc);
             if dec_bool f_validate then begin
               match validate o r with
